@@ -491,7 +491,8 @@ func (db *DB) getActiveFileWriteOff() (off int64, err error) {
 			db.ActiveFile.ActualSize = off
 
 		} else {
-			if err == io.EOF {
+			if err == io.EOF || err == ErrCrc {
+				// end of the segment, or a record that was never written completely
 				break
 			}
 
@@ -560,7 +561,8 @@ func (db *DB) parseDataFiles(dataFileIds []int) (unconfirmedRecords []*Record, c
 				off += entry.Size()
 
 			} else {
-				if err == io.EOF {
+				if err == io.EOF || err == ErrCrc {
+					// end of the segment, or a record that was never written completely
 					break
 				}
 
